@@ -8,6 +8,8 @@
 import CffVerif.Properties
 import CffVerif.Gen.Compose
 import CffVerif.Gen.FlowRun
+import CffVerif.Gen.DenoteOrder
+import CffVerif.Gen.OrderInv
 
 namespace Gen
 open Sched (Ev Outcome)
@@ -52,6 +54,20 @@ theorem C02_flow_refines_ideal (p : Prog) (sc : Scenario) (hacc : validateFlow p
   obtain ⟨h1, _, h3⟩ := flow_refines_ideal p sc hacc hs hd c hdeps hw hN acts s hr hcons hcoe hnil hall
   refine ⟨h1, ?_, h3⟩
   rw [(flowEnd_results p [] _).2 rfl, h1]
+
+/-- **C02 listing order.** Relisting the tasks of an accepted flow in any other order gives a flow
+    that is accepted too (C14_order) and whose reference execution computes the same value for
+    every type — hence, with `C02_flow_refines_ideal`, the same Results for every schedule, worker
+    count and concurrency limit (`Gen.C02_results_written_independent` states that combination,
+    and equates the values with the declarative denotation `valueOf`). -/
+theorem C02_listing_order (p₁ : Prog) (ts : List Task) (hperm : p₁.tasks.Perm ts) (sc : Scenario)
+    (h₁ : validateFlow p₁ = []) (hs : SmallTypes p₁) (hd : DistinctIds p₁) (hnf : NoFailure p₁ sc) (τ : Ty) :
+    validateFlow { p₁ with tasks := ts } = [] ∧
+    (ideal p₁ sc).store.val τ = (ideal { p₁ with tasks := ts } sc).store.val τ ∧
+    (ideal p₁ sc).store.val τ = valueOf p₁ sc (p₁.tasks.length + 1) τ := by
+  have h₂ := (C14_order p₁ { p₁ with tasks := ts } ts hperm rfl hs hd).mp h₁
+  exact ⟨h₂, C02_order_independent_values p₁ { p₁ with tasks := ts } sc h₁ h₂ hs hd rfl rfl hperm hnf τ,
+    ideal_eq_valueOf p₁ sc h₁ hs hd hnf _ (Nat.le_refl _) τ⟩
 
 /-! ### C12 — ownership of the closure variables (partial: the Go memory model is trusted) -/
 
